@@ -615,9 +615,12 @@ async def real_server_run(kind: str, contents: list[bytes], chunks: list[bytes],
             "notes": rec.notes, "replies": [], "raw_replies": bytes(raw_replies), "outcomes": rec.outcomes()}
 
 
-async def real_end_to_end(kind: str, msgs: list[bytes], mode: str, tmpdir: str) -> list[dict[str, Any]]:
+async def real_end_to_end(kind: str, msgs: list[bytes], mode: str, tmpdir: str, via_run: bool = False
+                          ) -> list[dict[str, Any]]:
     """Real client transport <-> real handle_client over a real socket.
     mode 'lockstep': request() per message; 'burst': all writes, then all reads.
+    via_run: the listening socket is created by the server transport's own run() (the way `gallia script vecu`
+    starts it) instead of by the harness.
     Returns two traces: requests (client write -> server loop) and replies
     (server write -> client read)."""
     up = Rec(msgs)
@@ -650,7 +653,7 @@ async def real_end_to_end(kind: str, msgs: list[bytes], mode: str, tmpdir: str) 
 
         srv.server.on_respond = on_respond  # type: ignore[attr-defined]
         try:
-            await srv.handle_client(r, w)
+            await type(srv).handle_client(srv, r, w)
         except ZeroDivisionError:
             up.note("handle_client:ZeroDivisionError-in-statistics")
         except Exception as e:  # noqa: BLE001
@@ -662,7 +665,27 @@ async def real_end_to_end(kind: str, msgs: list[bytes], mode: str, tmpdir: str) 
             w.close()
             finished.set()
 
-    if kind == "tcp":
+    run_task: asyncio.Task[None] | None = None
+    server: Any = None
+    if via_run:
+        import socket as _socket
+
+        from gallia.services.uds.server import UnixUDSServerTransport
+
+        srv.handle_client = handler  # type: ignore[method-assign]  # run() hands self.handle_client to asyncio
+        if kind == "tcp":
+            with _socket.socket() as probe:
+                probe.bind(("127.0.0.1", 0))
+                port_no = probe.getsockname()[1]
+            uri = f"tcp-lines://127.0.0.1:{port_no}"
+            srv.target = TargetURI(uri)
+            run_task = asyncio.ensure_future(TCPUDSServerTransport.run(srv))
+        else:
+            path = os.path.join(tmpdir, f"e{len(os.listdir(tmpdir))}.sock")
+            uri = f"unix-lines://{path}"
+            srv.target = TargetURI(uri)
+            run_task = asyncio.ensure_future(UnixUDSServerTransport.run(srv))  # type: ignore[arg-type]
+    elif kind == "tcp":
         server = await asyncio.start_server(handler, "127.0.0.1", 0)
         uri = f"tcp-lines://127.0.0.1:{server.sockets[0].getsockname()[1]}"
     else:
@@ -670,7 +693,17 @@ async def real_end_to_end(kind: str, msgs: list[bytes], mode: str, tmpdir: str) 
         server = await asyncio.start_unix_server(handler, path)
         uri = f"unix-lines://{path}"
     try:
-        tr = await CLS[kind].connect(uri, timeout=10.0)
+        tr = None
+        for _ in range(200):  # run() needs a moment to listen
+            try:
+                tr = await CLS[kind].connect(uri, timeout=10.0)
+                break
+            except (ConnectionRefusedError, FileNotFoundError):
+                if not via_run:
+                    raise
+                await asyncio.sleep(0.05)
+        if tr is None:
+            raise Machinery("real end-to-end: the server transport's run() never listened")
         instrument_reader(tr.reader, on_feed=down.feed, on_eof=down.close)
         cur_req = [b""]
         sender_hook(tr.writer, up, cur_req)
@@ -721,8 +754,15 @@ async def real_end_to_end(kind: str, msgs: list[bytes], mode: str, tmpdir: str) 
     except asyncio.TimeoutError:
         up.note("real-run-write-timeout")
     finally:
-        server.close()
-        await server.wait_closed()
+        if server is not None:
+            server.close()
+            await server.wait_closed()
+        if run_task is not None:
+            run_task.cancel()
+            try:
+                await run_task
+            except (asyncio.CancelledError, Exception):  # noqa: BLE001
+                pass
     out = []
     for name, rec in (("up", up), ("down", down)):
         out.append({"kind": f"real-e2e-{kind}-{mode}-{name}", "ev": rec.ev, "rb": rec.rb, "tab": rec.tab,
